@@ -65,6 +65,8 @@ def gen(rng, focus, k=None, maxops=40):
          "unauth": 5}
     if focus == "C09":
         w.update({"up": 18, "req": 45, "du": 6})
+    if focus == "C05":
+        w.update({"restart": 10, "cu": 14, "du": 6, "pat": 10, "cp": 8, "up": 10})
     kinds = list(w)
     weights = [w[x] for x in kinds]
     tokcount = 0
@@ -79,6 +81,12 @@ def gen(rng, focus, k=None, maxops=40):
         kind = rng.choices(kinds, weights)[0]
         if kind == "cu":
             free = [x for x in names if x not in users]
+            taken = [x for x in users if x != "_deleted"]
+            if taken and rng.random() < 0.25:
+                # a refused creation (the name exists) must leave no trace: not in the list, not in the ids
+                # given out afterwards, not after a restart
+                emit(f"create-user {rng.choice(list(conns))} {rng.choice(taken)} {rand_pw(rng)} active {rand_perms(rng)}")
+                continue
             if not free:
                 continue
             name = rng.choice(free)
